@@ -54,6 +54,22 @@ Lemma K_par_is_end_marker (r : option Z) :
 Proof. unfold par_is_end_marker; destruct r; reflexivity. Qed.
 Lemma K_par_drain_continue b : par_drain_continue b = negb b.
 Proof. unfold par_drain_continue; destruct b; reflexivity. Qed.
+Lemma K_par_ord_ended_before_get : par_ord_ended_before_get = true.
+Proof. reflexivity. Qed.
+Lemma K_par_ord_died_before_all_ended : par_ord_died_before_all_ended = true.
+Proof. reflexivity. Qed.
+Lemma K_par_ord_ended_before_log_get : par_ord_ended_before_log_get = true.
+Proof. reflexivity. Qed.
+Lemma K_par_ord_tasks_before_result : par_ord_tasks_before_result = true.
+Proof. reflexivity. Qed.
+Lemma K_par_ord_status_nonblocking : par_ord_status_nonblocking = true.
+Proof. reflexivity. Qed.
+Lemma K_par_child_seed x : par_child_seed x = x.
+Proof. unfold par_child_seed; lia. Qed.
+Lemma K_par_n_global_rng_calls : par_n_global_rng_calls = 0%Z.
+Proof. reflexivity. Qed.
+Lemma K_par_n_rss_requests : par_n_rss_requests = 1%Z.
+Proof. reflexivity. Qed.
 Lemma K_trials_n_tasks n : trials_n_tasks n = n.
 Proof. unfold trials_n_tasks; lia. Qed.
 
@@ -255,6 +271,35 @@ Proof. unfold upd. now rewrite Nat.eqb_refl. Qed.
 Lemma upd_neq f p k q : q <> p -> upd f p k q = f q.
 Proof. unfold upd. intro H. destruct (Nat.eqb_spec q p); [contradiction|reflexivity]. Qed.
 
+Lemma wstep_eq pid a (w : world) :
+  wstep pid a w =
+  if (1 <=? pid) && (pid <=? np) then
+    match exitc (wks w pid) with
+    | Some _ => w
+    | None =>
+      match a, pc (wks w pid) with
+      | APutLog id, WRun =>
+          mkworld (rq w) (upd (wks w) pid (mkwk WRun None (lq (wks w pid) ++ [Some id])))
+      | APutResult, WRun =>
+          match wres pid with
+          | Ok r => mkworld (rq w ++ [(pid, r)]) (upd (wks w) pid (mkwk WPut None (lq (wks w pid))))
+          | Err _ => w
+          end
+      | APutEnd, WPut =>
+          mkworld (rq w) (upd (wks w) pid (mkwk WDone None (lq (wks w pid) ++ [None])))
+      | AExit0, WDone =>
+          mkworld (rq w) (upd (wks w) pid (mkwk WDone (Some 0%Z) (lq (wks w pid))))
+      | ADie c, p =>
+          mkworld (rq w) (upd (wks w) pid (mkwk p (Some c) (lq (wks w pid))))
+      | _, _ => w
+      end
+    end
+  else w.
+Proof.
+  unfold M_Parallel.wstep, wstep_gen.
+  rewrite K_par_ord_tasks_before_result, K_par_ord_status_nonblocking. reflexivity.
+Qed.
+
 Lemma all_ended_true (w : world) :
   all_ended w = true <-> (forall p, 1 <= p <= np -> exitc (wks w p) <> None).
 Proof.
@@ -316,7 +361,9 @@ Lemma mstep_eq (w : world) (m : mst) :
       else Run w m
   end.
 Proof.
-  unfold M_Parallel.mstep. destruct (ph m) as [|ae|ae|pid|pid e|].
+  unfold M_Parallel.mstep, mstep_gen.
+  rewrite K_par_ord_ended_before_get, K_par_ord_died_before_all_ended, K_par_ord_ended_before_log_get.
+  destruct (ph m) as [|ae|ae|pid|pid e|].
   - reflexivity.
   - rewrite K_par_poll_continue. cbn [negb]. reflexivity.
   - rewrite K_par_all_ended_raises, K_par_poll_continue. cbn [negb]. reflexivity.
@@ -406,7 +453,7 @@ Qed.
 
 Lemma Inv_worker w m pid a : Inv w m -> Inv (wstep pid a w) m.
 Proof.
-  intro HI. unfold M_Parallel.wstep.
+  intro HI. rewrite wstep_eq.
   destruct ((1 <=? pid) && (pid <=? np)) eqn:Hg; [|exact HI].
   apply andb_prop in Hg as [Hg1 Hg2]. apply Nat.leb_le in Hg1, Hg2.
   destruct (exitc (wks w pid)) eqn:He; [exact HI|].
